@@ -13,8 +13,15 @@ THEOREMS = ['Pylx.L2T.C03.C03_append_state', 'Pylx.L2T.C03.C03_append', 'Pylx.L2
             'Pylx.L2T.C03.C03_symbol_specials', 'Pylx.L2T.C03.C03_specials_unknown', 'Pylx.L2T.C03.C03_macro_unknown', 'Pylx.L2T.C03.C03_symbol',
             'Pylx.L2T.C03.C03_table_specials', 'Pylx.L2T.C03.C03_table_symbols', 'Pylx.L2T.C03.C03_comment', 'Pylx.L2T.C03.C03_math_inline',
             'Pylx.L2T.C03.C03_math_display', 'Pylx.L2T.C03.C03_math_modes', 'Pylx.L2T.C03.C03_presets', 'Pylx.L2T.C03.C03_bare_macro_space',
-            'Pylx.L2T.C03.C03_bare_macro_chars', 'Pylx.L2T.C03.C03_plain_boundary', 'Pylx.L2T.C03.C03_compose_tree', 'Pylx.L2T.C03.C03_instances']
-PROOF_MODULES = ['C03']
+            'Pylx.L2T.C03.C03_bare_macro_chars', 'Pylx.L2T.C03.C03_plain_boundary', 'Pylx.L2T.C03.C03_compose_tree', 'Pylx.L2T.C03.C03_instances',
+            'Pylx.L2T.C03.postSpaceInCall_of_WF',
+            # string level (PylxProofs/C03S*.lean): exact round trip, tolerant = strict, position independence, rules = rendering
+            'Pylx.L2T.C03S.C02x_core_exact', 'Pylx.L2T.C03S.C03_exact_roundtrip', 'Pylx.L2T.C03S.C03_render_erase_congr',
+            'Pylx.L2T.C03S.C03_render_positions_matter',
+            'Pylx.L2T.C03S.latexToText_exact', 'Pylx.L2T.C03S.renderX_spec', 'Pylx.L2T.C03S.default_dbOk',
+            'Pylx.L2T.C03S.C03_string_level', 'Pylx.L2T.C03S.C03_full_partial', 'Pylx.L2T.C03S.default_tableOk',
+            'Pylx.L2T.C03S.C03_full_core']
+PROOF_MODULES = ['C03', 'C03SX', 'C03SRound', 'C03SRender', 'C03SSpec', 'C03SFull', 'C03SCore']
 RULE = ('SPEC: the Lean statement of the rules (Pylx.L2T.C03.specText, CoreText) vs the harness statement (spectext.spec_text) on every generated derivation; L2T: LatexNodes2Text(math_mode, strict_latex_spaces, keep_comments, keep_braced_groups).latex_to_text(unparse(d)) for derivations d '
         'of the core sublanguage (text, whitespace, paragraph breaks, groups, formatting / symbol / accent macros, \\frac, \\sqrt, \\item, '
         'unknown macros, list and unknown environments, specials, comments, the four kinds of formula; arbitrary nesting): hand-written '
@@ -339,11 +346,22 @@ LEVEL_TEXT = ('Tree-level laws of the renderer model Pylx.L2T, each proved for a
               '_specials / C03_symbol (+ kernel-checked table facts C03_table_specials, C03_table_symbols: ~ is U+00A0, -- is U+2013, --- is U+2014, '
               'quotes, & is three spaces; all 900-odd plain-string replacements are covered), C03_comment (four cases), C03_math_inline / _display / '
               '_modes, C03_presets, C03_bare_macro_space; C03_compose_tree — two blocks joined by a paragraph break or a whitespace-only segment. '
-              'String level: C03_full (latexToText(unparse d) = specText d for every well-formed core document) is stated over the document '
-              'grammar with a Lean specText, NOT proved; C03_instances checks it by kernel evaluation on two documents exercising every rule under '
-              'eight option sets. The Lean specText is tied to the harness spec_text (SPEC), the model to the implementation (L2T), and the '
+              'String level (PylxProofs/C03S*.lean): C03_full_core — for EVERY option set (all math modes, every strict_latex_spaces policy incl. '
+              'arbitrary dictionaries, keep_comments, keep_braced_groups with any minimum length), all library oracles and every document d of the '
+              'core sublanguage (CoreText) inside the decidable fragment Doc.Core (2128 of the 2203 distinct WF documents of a quick run, 96.6 %): latexToText(unparse d) = '
+              'specText d.  Proved in four steps, each a theorem: C02x_core_exact (the strict parse of unparse d is EXACTLY the tree d was written '
+              'with: every chars node incl. whitespace-only ones, macro post-spaces, comments and their post-spaces, delimiters, argument lists '
+              'with absent slots, source slices of formulas / environments; only positions and parsing states forgotten; no two adjacent chars '
+              'nodes), C03_exact_roundtrip (the tolerant parse latex_to_text runs returns the same tree, via C06_agree), C03_render_erase_congr '
+              '(the renderer depends on a node tree only through that position-free tree, for all trees / options / databases), renderX_spec + '
+              'C03_string_level (rule by rule, by induction over the derivation, the rendering of the exact tree is specText — for any text '
+              'database and walker context satisfying the decidable facts dbOk / specOk), default_dbOk + default_tableOk (those facts for the two '
+              'generated default databases, decide +kernel).  C03_full (every WF core document) is a proposition; postSpaceInCall_of_WF shows '
+              'its earlier helper hypothesis is implied by the repaired Doc.WF (dropped).  C03_instances still checks two documents by kernel '
+              'evaluation.  The Lean specText is tied to the harness spec_text (SPEC), the model to the implementation (L2T), and the '
               'implementation is tested against spec_text and against the composition law for self-contained blocks.')
-LEVEL_NOTE = ('C03_full unproved (needs a whitespace-exact, tolerant-mode version of C02_core); the composition law at string level rests on the '
-              'oracle (hand-written block pairs x separators x policies x math modes, random blocks); accents: NFC is a library oracle; '
-              'fill_text outside; Lean kernel + propext/Classical.choice/Quot.sound')
+LEVEL_NOTE = ('C03_full is proved on Doc.Core (C03_full_core); outside it (an absent optional argument directly in front of a paragraph break, '
+              '\\begin or \\end, where the round trip C02 is not proved) it rests on the SPEC / L2T correspondences and the specification oracle; '
+              'the composition law at string level rests on the oracle (hand-written block pairs x separators x policies x math modes, random '
+              'blocks); accents: NFC is a library oracle; fill_text outside; Lean kernel + propext/Classical.choice/Quot.sound')
 TECHNIQUE = 'Lean 4 proof (algebraic laws of the renderer model) + L2T correspondence + specification oracle + composition-law oracle'
